@@ -17,6 +17,11 @@ pub struct PieceReader {
     pub zero_consumes: Rc<Cell<u64>>,
     pub max_zero_run: Rc<Cell<u64>>,
     zero_run: u64,
+    /// what an exhausted window answers: 0 = an empty slice (end of input), 1 = Err(WouldBlock), 2 = Err(Interrupted)
+    pub stall: Rc<Cell<u8>>,
+    /// consecutive polls answered with the stall error (a decoder that keeps polling a stalled reader spins)
+    pub stall_polls: Rc<Cell<u64>>,
+    pub max_stall_polls: Rc<Cell<u64>>,
 }
 
 impl PieceReader {
@@ -25,6 +30,7 @@ impl PieceReader {
         PieceReader {
             data: Rc::new(data), pos: 0, cur_end: 0, sizes: sizes.to_vec(), k: 0, visible: Rc::new(Cell::new(n)),
             fills: Rc::new(Cell::new(0)), zero_consumes: Rc::new(Cell::new(0)), max_zero_run: Rc::new(Cell::new(0)), zero_run: 0,
+            stall: Rc::new(Cell::new(0)), stall_polls: Rc::new(Cell::new(0)), max_stall_polls: Rc::new(Cell::new(0)),
         }
     }
 }
@@ -60,8 +66,19 @@ impl BufRead for PieceReader {
         }
         let end = self.cur_end.min(vis);
         if end <= self.pos {
+            if self.stall.get() != 0 && self.pos < self.data.len() {
+                let n = self.stall_polls.get() + 1;
+                self.stall_polls.set(n);
+                if n > self.max_stall_polls.get() { self.max_stall_polls.set(n); }
+                if n > 10_000 {
+                    return Err(std::io::Error::new(std::io::ErrorKind::Other, "SPIN: a stalled reader was polled 10000 times in a row"));
+                }
+                let kind = if self.stall.get() == 1 { std::io::ErrorKind::WouldBlock } else { std::io::ErrorKind::Interrupted };
+                return Err(std::io::Error::new(kind, "stalled"));
+            }
             return Ok(&[]);
         }
+        self.stall_polls.set(0);
         Ok(&self.data[self.pos..end])
     }
     fn consume(&mut self, amt: usize) {
@@ -149,7 +166,12 @@ pub fn do_next_frame(rd: &mut Rd, fill: u8) -> (String, Option<Vec<u8>>) {
 
 /// Decode everything through next_frame, then finish; one canonical line.
 pub fn reader_summary(bytes: &[u8], sched: &[usize], opts: Opts, tbits: u32) -> String {
-    let mut rd = match open_reader(bytes, sched, opts, tbits, None) {
+    reader_summary_limited(bytes, sched, opts, tbits, None)
+}
+
+/// the same under `Limits { bytes: limit }`
+pub fn reader_summary_limited(bytes: &[u8], sched: &[usize], opts: Opts, tbits: u32, limit: Option<usize>) -> String {
+    let mut rd = match open_reader(bytes, sched, opts, tbits, limit) {
         Err(m) => return format!("PANIC read_info: {}", m),
         Ok(Err(e)) => return format!("RI:{}", e),
         Ok(Ok(r)) => r,
